@@ -351,22 +351,8 @@ fn client(d: Arc<dyn Drv>, h: HCfg, tid: u8, ids: Arc<AtomicU64>, clears: Arc<(A
     (recs, checks * 1_000_000 + single.min(999_999), skipped * 1_000_000 + multi.min(999_999), bad)
 }
 
-/// wait() until it succeeds (a full buffer makes it fail legitimately)
 fn wait_ok(d: &dyn Drv) -> Result<(), String> {
-    let t0 = std::time::Instant::now();
-    loop {
-        match d.wait() {
-            Ok(()) => return Ok(()),
-            Err(e) => {
-                if t0.elapsed() > Duration::from_secs(60) {
-                    return Err(format!("wait() kept failing for 60 s: {e}"));
-                }
-                // a full buffer: let the processor work (on a single-threaded executor it only
-                // runs while somebody drives it)
-                let _ = d.drive_until(&|| d.buffer().0 < d.buffer().1, Duration::from_millis(100));
-            }
-        }
-    }
+    crate::driver::wait_retry(d, Duration::from_secs(60))
 }
 
 /// Reset the process-global hooks, build the cache under test and start recording.
